@@ -1,6 +1,6 @@
 """Driver: builds the workers from /repo's working tree, shards the PRNG-determined case list over
 child processes, attributes crashes, applies known_findings.json, writes evidence and replay files."""
-import json, os, re, signal, subprocess, sys, time, hashlib, shutil, tempfile
+import json, os, re, signal, subprocess, sys, time, hashlib, shutil, tempfile, threading
 from concurrent.futures import ThreadPoolExecutor
 
 ROOT = os.path.dirname(os.path.dirname(os.path.abspath(__file__)))
@@ -74,6 +74,35 @@ def covered(viol, known):
     return None
 
 
+class StderrKeeper(threading.Thread):
+    """Drains a child's stderr, keeping its first 512 KiB and its last 1 MiB (the middle is counted, not kept)."""
+    HEAD, TAIL = 512 * 1024, 1024 * 1024
+
+    def __init__(self, pipe):
+        super().__init__(daemon=True)
+        self.pipe, self.head, self.tail, self.total = pipe, b"", b"", 0
+        self.start()
+
+    def run(self):
+        while True:
+            b = self.pipe.read1(1 << 20) if hasattr(self.pipe, "read1") else self.pipe.read(1 << 16)
+            if not b:
+                break
+            self.total += len(b)
+            if len(self.head) < self.HEAD:
+                k = self.HEAD - len(self.head)
+                self.head += b[:k]
+                b = b[k:]
+            if b:
+                self.tail = (self.tail + b)[-self.TAIL:]
+
+    def text(self):
+        self.join(timeout=30)
+        dropped = self.total - len(self.head) - len(self.tail)
+        mid = ("\n[... %d bytes of stderr not kept ...]\n" % dropped) if dropped > 0 else ""
+        return self.head.decode("utf-8", "replace") + mid + self.tail.decode("utf-8", "replace")
+
+
 def panic_sig(stderr):
     """Reduce a fatal stderr to 'message-class @ innermost gotree function'."""
     msg = ""
@@ -111,8 +140,10 @@ class Runner:
             cmd = [self.exe, "-prop", self.prop, "-tier", self.tier, "-seed", str(self.seed),
                    "-from", str(cur), "-to", str(b)]
             timed_out = False
-            with open(outp, "wb") as fo, open(errp, "wb") as fe:
-                p = subprocess.Popen(cmd, stdout=fo, stderr=fe, env=env, cwd=wd)
+            with open(outp, "wb") as fo:
+                # stderr goes through a limiter: a code path that spins while logging can write tens of gigabytes
+                p = subprocess.Popen(cmd, stdout=fo, stderr=subprocess.PIPE, env=env, cwd=wd)
+                keeper = StderrKeeper(p.stderr)
                 try:
                     p.wait(timeout=self.chunk_timeout)
                 except subprocess.TimeoutExpired:
@@ -137,8 +168,7 @@ class Runner:
                         last_begin = None
                     elif line.startswith("DONE"):
                         done = True
-            with open(errp, "r", errors="replace") as f:
-                stderr = f.read()
+            stderr = keeper.text()
             blob = ""
             try:
                 with open(os.path.join(wd, "case.blob"), "r", errors="replace") as f:
